@@ -7,6 +7,7 @@ import (
 	"fmt"
 	"html"
 	"math"
+	"math/big"
 	"math/rand"
 	"net/url"
 	"reflect"
@@ -1935,6 +1936,52 @@ func (e *CoreExtension) filterAbs(value interface{}, args ...interface{}) (inter
 	return math.Abs(num), nil
 }
 
+// roundDecimal rounds num to the given number of decimals in exact decimal
+// arithmetic on the number as it is written (its shortest decimal
+// representation). Scaling the float64 instead (num * 10^precision) is off by
+// one unit for many inputs: 4.001 * 1000 = 4001.000000000001, whose ceiling is
+// 4002.
+func roundDecimal(num float64, precision int, method string) float64 {
+	r, ok := new(big.Rat).SetString(strconv.FormatFloat(num, 'f', -1, 64))
+	if !ok {
+		// NaN or infinity
+		return num
+	}
+
+	// scale = 10^precision (a fraction for a negative precision)
+	pow := new(big.Int).Exp(big.NewInt(10), big.NewInt(int64(precision)).Abs(big.NewInt(int64(precision))), nil)
+	scale := new(big.Rat).SetInt(pow)
+	if precision < 0 {
+		scale.Inv(scale)
+	}
+	scaled := new(big.Rat).Mul(r, scale)
+
+	// floor(scaled): Div is Euclidean and the denominator is positive
+	q := new(big.Int).Div(scaled.Num(), scaled.Denom())
+
+	switch method {
+	case "floor":
+		// q is the floor already
+	case "ceil", "ceiling":
+		if !scaled.IsInt() {
+			q.Add(q, big.NewInt(1))
+		}
+	default: // "common" or any other value: half away from zero
+		frac := new(big.Rat).Sub(scaled, new(big.Rat).SetInt(q)) // in [0, 1)
+		switch frac.Cmp(big.NewRat(1, 2)) {
+		case 1:
+			q.Add(q, big.NewInt(1))
+		case 0:
+			if scaled.Sign() > 0 {
+				q.Add(q, big.NewInt(1))
+			}
+		}
+	}
+
+	rounded, _ := new(big.Rat).Quo(new(big.Rat).SetInt(q), scale).Float64()
+	return rounded
+}
+
 func (e *CoreExtension) filterRound(value interface{}, args ...interface{}) (interface{}, error) {
 	num, err := toFloat64(value)
 	if err != nil {
@@ -1959,18 +2006,7 @@ func (e *CoreExtension) filterRound(value interface{}, args ...interface{}) (int
 	}
 
 	// Apply rounding
-	var result float64
-	switch method {
-	case "ceil", "ceiling":
-		shift := math.Pow(10, float64(precision))
-		result = math.Ceil(num*shift) / shift
-	case "floor":
-		shift := math.Pow(10, float64(precision))
-		result = math.Floor(num*shift) / shift
-	default: // "common" or any other value
-		shift := math.Pow(10, float64(precision))
-		result = math.Round(num*shift) / shift
-	}
+	result := roundDecimal(num, precision, method)
 
 	// If precision is 0, return an integer
 	if precision == 0 {
